@@ -132,7 +132,7 @@ fn strong_cfg(known_shapes: bool) -> AspCfg {
         AspCfg {
             preds: vec![("p".into(), 1), ("hp".into(), 1), ("tp".into(), 2), ("q_i".into(), 1), ("s".into(), 0), ("x__s".into(), 1), ("r_g".into(), 0), ("w".into(), 11)],
             vars: vec!["X".into(), "Y".into(), "V1".into()],
-            syms: vec!["a".into(), "s".into(), "b_s".into(), "aB_1".into(), "a1".into(), "a_".into(), "ab".into(), "s0".into(), "sA".into(), "r_g".into(), "location_b".into(), "location_a".into(), "locationA".into(), "constant2".into(), "constant".into(), "constant_".into()],
+            syms: vec!["a".into(), "s".into(), "b_s".into(), "aB_1".into(), "a1".into(), "a_".into(), "ab".into(), "s0".into(), "sA".into(), "r_g".into(), "location_b".into(), "location_a".into(), "locationA".into(), "constant2".into(), "constant10".into(), "constant".into(), "constant_".into()],
             num_lo: -2,
             num_hi: 3,
             term_depth: 2,
@@ -148,7 +148,7 @@ pub fn task_strategy(known_shapes: bool) -> BoxedStrategy<TaskCase> {
     let c = strong_cfg(known_shapes);
     prop_oneof![
         1 => (ga::program(&c), ga::program(&c), any::<bool>(), gt::choices(8)).prop_map(|(left, right, mu, choices)| TaskCase::Strong { left, right, mu, choices }),
-        1 => gt::choices(161).prop_map(|choices| TaskCase::External { choices }),
+        1 => gt::choices(181).prop_map(|choices| TaskCase::External { choices }),
     ]
     .boxed()
 }
@@ -863,7 +863,7 @@ impl Check for WithOutline {
         tier.pick(15_000, 300_000)
     }
     fn strategy(&self, _tier: Tier) -> BoxedStrategy<OutlineCase> {
-        (gt::choices(170), gt::choices(80)).prop_map(|(task, outline)| OutlineCase { task, outline }).boxed()
+        (gt::choices(180), gt::choices(80)).prop_map(|(task, outline)| OutlineCase { task, outline }).boxed()
     }
     fn rule(&self) -> String {
         "external task valid by construction with a generated proof outline (1-4 entries: definitions, lemmas with free or quantified variables and without predicates, inductive lemmas whose induction variable is re-bound inside or shares its name with a general variable; every direction annotation) x flags; oracle as in part well-formed: every emitted problem, including the *_outline_* problems with base cases and inductive steps, passes the strict TFF reader and type checker, and problem names are distinct; non-trivial = an outline problem was emitted; distinct by problem text".into()
